@@ -16,7 +16,7 @@ except Exception:  # pragma: no cover
 
 META = {
     "technique": "Lean 4 algebra/analysis (cutoff semantics of the pair list, monopole cancellation identity, Klopman-Ohno kernel asymptotics) + Parser correspondence around the cutoff (C05 adapter) + long-range additivity probes 8-500 A",
-    "level_text": "Theorems: with the default cutoff no real pair with |d|^2 < 1e20 is dropped and with a finite cutoff exactly the pairs with d^2 < c^2 (strict) are kept; Z_A Z_B g - Z_A P_B g - Z_B P_A g + P_A P_B g = q_A q_B g, so the 1/R terms cancel between neutral fragments; 0 <= 1/R - 1/sqrt(R^2+rho^2) <= rho^2/(2R^3). Tied to the code by the exact Parser correspondence with finite cutoffs and by probing E(A...B) - E(A) - E(B), fragment forces, charges and orbital energies for separations 8-500 A, random orientations, all methods, default and finite cutoffs.",
+    "level_text": "Theorems: with the default cutoff no real pair with |d|^2 < 1e20 is dropped and with a finite cutoff exactly the pairs with d^2 < c^2 (strict) are kept; Z_A Z_B g - Z_A P_B g - Z_B P_A g + P_A P_B g = q_A q_B g, so the 1/R terms cancel between neutral fragments; 0 <= 1/R - 1/sqrt(R^2+rho^2) <= rho^2/(2R^3). Tied to the code by the exact Parser correspondence with finite cutoffs and by probing E(A...B) - E(A) - E(B), fragment forces, charges and orbital energies for separations 8-500 A, random orientations, all methods, default and finite cutoffs. Round 2 (C19b): when every pair between two fragments is dropped (finite cutoff) the super-system decouples exactly - energy functional, Fock matrix and commutator are direct sums, the direct sum of fragment SCF solutions is a stationary point with energy E_A + E_B, and it is the (unique, under a common strict Fermi level) aufbau solution iff the fragments' occupied levels lie below each other's virtual levels (charge-transfer counterexample otherwise); forces on one fragment get no contribution from the other.",
     "level_note": "Trusted: Lean kernel; harness. Partial: the decay RATE for the SCF-relaxed system is validated (ratio test per doubling of R), the theorem covers the frozen-density interaction.",
     "design_ref": "DESIGN.md section 5 C19",
 }
@@ -151,6 +151,8 @@ def gen_cases(ctx: Ctx):
 
 def run(ctx: Ctx):
     leanproj.check_theorems(ctx, MODULE, THEOREMS)
+    from .registry import THEOREMS_C19B
+    leanproj.check_theorems(ctx, "PyseqmVerif.Properties.C19b", THEOREMS_C19B)
     cases = gen_cases(ctx)
     results = mdh.pmap(probe_fragments, cases, timeout=1800)
     for c, r in zip(cases, results):
